@@ -161,19 +161,20 @@ type storeReq struct {
 }
 
 type tlSummary struct {
-	ret        [][]retAtom // per result index
-	pair       [2]int      // certified (value, flag) result pair or {-1,-1}
-	establish  [][2]int    // (table param [path empty], idx param) unshared on every return
-	estPaths   []string    // table path per establish entry
-	reqs       []storeReq
-	flagLoad   bool // returns P0.flags[P1]
-	flagLoadTP string
-	flagSet    bool              // sets P0.flags[P1] = true
-	markAll    bool              // sets every flag of P0 true
-	retTab     [][]string        // per result: roots ("P<k>..." or "L" for a table local to the callee) the returned pointer may denote
-	mutTab     map[string]string // table roots (parameter- or freevar-rooted, or unknown) whose content this function may change -> witness
-	moves      []int             // parameters whose table gives containers away together with their flags: callers must pass a temporary
-	done       bool
+	ret         [][]retAtom // per result index
+	pair        [2]int      // certified (value, flag) result pair or {-1,-1}
+	establish   [][2]int    // (table param [path empty], idx param) unshared on every return
+	estPaths    []string    // table path per establish entry
+	reqs        []storeReq
+	flagLoad    bool // returns P0.flags[P1]
+	flagLoadTP  string
+	flagSet     bool              // sets P0.flags[P1] = true
+	markAll     bool              // sets every flag of P0 true
+	retTab      [][]string        // per result: roots ("P<k>..." or "L" for a table local to the callee) the returned pointer may denote
+	mutTab      map[string]string // table roots (parameter- or freevar-rooted, or unknown) whose content this function may change -> witness
+	moves       []int             // parameters whose table gives containers away together with their flags: callers must pass a temporary
+	mayEmptyRet bool              // a possibly empty kernel result is returned untested: the callers have to test it
+	done        bool
 }
 
 func (s *tlSummary) sig() string {
@@ -182,7 +183,7 @@ func (s *tlSummary) sig() string {
 		mt = append(mt, k)
 	}
 	sort.Strings(mt)
-	return fmt.Sprintf("%v|%v|%v|%v|%v|%v|%v|%v|%v|%v|%v", s.ret, s.pair, s.establish, s.estPaths, s.reqs, s.flagLoad, s.flagSet, s.markAll, mt, s.retTab, s.moves)
+	return fmt.Sprintf("%v|%v|%v|%v|%v|%v|%v|%v|%v|%v|%v|%v", s.ret, s.pair, s.establish, s.estPaths, s.reqs, s.flagLoad, s.flagSet, s.markAll, mt, s.retTab, s.moves, s.mayEmptyRet)
 }
 
 // ---- sites ----
